@@ -186,7 +186,7 @@ def string_st(limit, markup=True):
     short = min(cap, 10)
     pool = ["x", "A b", "é漢", "a,b", "1.5", "Tom's", 'say "hi"', "a b", "a  b", "ACME   HARDWARE  CO",
             # not NFC-stable (decomposed accent, Angstrom / Ohm signs, CJK compatibility ideograph): strings are code-point sequences
-            "Ame\u0301lie", "\u212b\u2126", "\uf900x",
+            "Ame\u0301lie", "\u212b\u2126", "\uf900x", "\u0958\ufb2a", "Caf\ufeffe", "\ufeffx",
             # values that look like another type's text or like a placeholder
             "0", "000000", "N", "Y", "NONE", "null", "-1", "1e5", "20200101"]
     if markup:
@@ -262,6 +262,8 @@ def wide_scalar_st(t):
             st.sampled_from(["AT&T", "a<b", "<![CDATA[x]]>", "&amp;", "&#60;", "&bogus;", "a&b;c", "</OFX>", "&", "<", " x ", "]]>"]).map(lambda x: x[:cap] or "&"),
             st.text(WIDE_CH, min_size=1, max_size=min(cap, 12)),
             st.text(st.sampled_from("&<a"), min_size=cap, max_size=cap) if cap <= 300 else st.just("&<"),
+            # exactly at the limit, made of characters whose normalised (NFC) form is longer than the character
+            st.text(st.sampled_from("\u0958\ufb2a\u0344\u0f43a"), min_size=cap, max_size=cap) if cap <= 300 else st.just("\u0958"),
         )
         # at the limit, then over it by blanks / no-break spaces / a combining mark only (must be refused, not written)
         over = st.sampled_from([" ", "  ", "\u00a0", "\u0301", "\t"]).map(lambda pad: "x" * cap + pad) if cap <= 300 else st.just("x ")
